@@ -181,7 +181,13 @@ def gen_history(rng, max_steps=25):
             ver["vid"] = nextvid[p]
             nextvid[p] += 1
             e = rng.random()
-            if e < 0.25:            # rename only: new member names
+            if rng.random() < 0.15:  # the edit is undone: exactly the text of the file on disk again (same version)
+                ver = dict(disk[p])
+                nextvid[p] -= 1
+                e = 2.0
+            if e > 1.0:
+                pass
+            elif e < 0.25:          # rename only: new member names
                 pass
             elif e < 0.40:          # insert a declaration
                 ver["nf"] = min(3, cur["nf"] + 1)
@@ -195,7 +201,7 @@ def gen_history(rng, max_steps=25):
                 ver["ref"] = rng.randrange(n)
             else:                   # break the syntax
                 ver["broken"] = rng.choice(["paren", "string"])
-            if cur["broken"] and rng.random() < 0.7:
+            if e <= 1.0 and cur["broken"] and rng.random() < 0.7:
                 ver["broken"] = None    # repair
             opened[p] = ver
             evs.append(("C", p, ver))
@@ -500,8 +506,14 @@ def run_history(binary, ws, evs, scratch, with_fresh=True):
                 srv.s.notify("textDocument/didOpen", {"textDocument": dict(td, languageId="gold", version=1, text=text_of(p, logical[p]))})
             elif e[0] == "C":
                 opened[p] = e[2]
+                # full-text sync: the LAST event of a notification is the document; every third change carries an
+                # earlier full text (and a ranged edit, which full-text sync ignores) in front of it
+                changes = [{"text": text_of(p, e[2])}]
+                if e[2]["vid"] % 3 == 1:
+                    changes = [{"text": text_of(p, logical[p])},
+                               {"range": {"start": {"line": 0, "character": 0}, "end": {"line": 0, "character": 1}}, "text": "x"}] + changes
                 srv.s.notify("textDocument/didChange", {"textDocument": dict(td, version=e[2]["vid"] + 1),
-                                                        "contentChanges": [{"text": text_of(p, e[2])}]})
+                                                        "contentChanges": changes})
             elif e[0] == "S":
                 disk[p] = logical[p]
                 opened[p] = None
